@@ -1,0 +1,194 @@
+// Licensed to Apache Software Foundation (ASF) under one or more contributor
+// license agreements. See the NOTICE file distributed with
+// this work for additional information regarding copyright
+// ownership. Apache Software Foundation (ASF) licenses this file to you under
+// the Apache License, Version 2.0 (the "License"); you may
+// not use this file except in compliance with the License.
+// You may obtain a copy of the License at
+//
+//     http://www.apache.org/licenses/LICENSE-2.0
+//
+// Unless required by applicable law or agreed to in writing,
+// software distributed under the License is distributed on an
+// "AS IS" BASIS, WITHOUT WARRANTIES OR CONDITIONS OF ANY
+// KIND, either express or implied.  See the License for the
+// specific language governing permissions and limitations
+// under the License.
+
+//go:build verif
+
+// Contracts for the skipping-index filters (comment-only; read by /verif/govc, never compiled into the product).
+// Property C08: a pruning structure may only over-approximate - it never answers "absent" for a value that was added.
+
+package filter
+
+//@ section C08
+//
+// ---- Bloom filter ----
+// xxhash is external: a deterministic function of the bytes it is given, nothing else is assumed.
+//@ decl func hashOf(b []byte) uint64
+//@ func xxhash.Sum64
+//@   assumed github.com/cespare/xxhash: deterministic, side-effect free
+//@   pure
+//@   ensures result == hashOf(b[:])
+//
+// probe i of an item with first-level hash h: the code hashes the 8 raw bytes of h+i and reduces modulo the bit count
+//@ spec func probeIdx(bits []uint64, h uint64, i uint64) uint64 = hashOf(rawbytes(h+i)) % (uint64(len(bits)) * 64)
+//@ spec func probeSet(bits []uint64, h uint64, i uint64) bool = (bits[probeIdx(bits, h, i) / 64] & (uint64(1) << (probeIdx(bits, h, i) % 64))) != 0
+//@ spec func present(bits []uint64, h uint64) bool =
+//@     probeSet(bits, h, 0) && probeSet(bits, h, 1) && probeSet(bits, h, 2) && probeSet(bits, h, 3) && probeSet(bits, h, 4) &&
+//@     probeSet(bits, h, 5) && probeSet(bits, h, 6) && probeSet(bits, h, 7) && probeSet(bits, h, 8) && probeSet(bits, h, 9)
+//
+// Add sets all k probes of the item and only ever turns bits on (sequential semantics of the CAS loop).
+//@ func BloomFilter.Add
+//@   mode bv
+//@   opt uf-mod
+//@   requires bf != nil && len(bf.bits) > 0
+//@   requires addressable: len(bf.bits) < 144115188075855872
+//@   modifies bf.bits[0:len(bf.bits)]
+//@   loop 0 invariant 0 <= i && i <= 10 && h == hashOf(item[:]) + uint64(i) && maxBits == uint64(len(bits)) * 64
+//@   loop 0 invariant hdr: samehdr(bits, old(bf.bits)) && samehdr(bf.bits, old(bf.bits))
+//@   loop 0 invariant probes: forall p uint64 :: p < uint64(i) ==> probeSet(bits, hashOf(item[:]), p)
+//@   loop 0 invariant monotone: forall w :: 0 <= w && w < len(bits) ==> (bits[w] & old(bf.bits[w])) == old(bf.bits[w])
+//@   loop 1 unroll 1
+//@   ensures  hdr: samehdr(bf.bits, old(bf.bits))
+//@   ensures  added: present(bf.bits, hashOf(item[:]))
+//@   ensures  monotone: forall w :: 0 <= w && w < len(bf.bits) ==> (bf.bits[w] & old(bf.bits[w])) == old(bf.bits[w])
+//
+// MightContain answers exactly "all k probes are set": never false for an item whose probes are set.
+//@ func BloomFilter.MightContain
+//@   mode bv
+//@   opt uf-mod
+//@   requires bf != nil && len(bf.bits) > 0
+//@   requires addressable: len(bf.bits) < 144115188075855872
+//@   loop 0 unroll 10
+//@   ensures  no-false-negative: present(bf.bits, hashOf(item[:])) ==> result
+//@   ensures  exact: result ==> present(bf.bits, hashOf(item[:]))
+//
+// Bits that are only turned on keep every earlier item present: with Add's postconditions this is the induction step of
+// "every item added since the last resize is reported as possibly contained".
+//@ lemma presentIsMonotone(a []uint64, b []uint64, h uint64)
+//@   mode bv
+//@   requires len(a) == len(b) && len(a) > 0
+//@   requires forall w :: 0 <= w && w < len(a) ==> (b[w] & a[w]) == a[w]
+//@   requires present(a, h)
+//@   ensures  present(b, h)
+//
+//@ func BloomFilter.ContainsAll
+//@   mode bv
+//@   opt opaque-spec present
+//@   requires bf != nil && len(bf.bits) > 0
+//@   requires addressable: len(bf.bits) < 144115188075855872
+//@   ensures  no-false-negative: (forall t :: 0 <= t && t < len(items) ==> present(bf.bits, hashOf(items[t][:]))) ==> result
+//@   ensures  exact: result ==> (forall t :: 0 <= t && t < len(items) ==> present(bf.bits, hashOf(items[t][:])))
+//@   loop 0 invariant forall t :: 0 <= t && t < range_i ==> present(bf.bits, hashOf(items[t][:]))
+//
+// (re)sizing: the bit set is replaced; membership claims restart from the new contents (callers add after resizing)
+//@ func BloomFilter.ResizeBits
+//@   mode int
+//@   requires bf != nil && 0 <= n
+//@   modifies bf.bits
+//@   ensures  len(bf.bits) == n
+//@ func BloomFilter.SetBits
+//@   mode int
+//@   requires bf != nil
+//@   modifies bf.bits
+//@   ensures  samehdr(bf.bits, bits)
+//@ func BloomFilter.Reset
+//@   mode int
+//@   requires bf != nil
+//@   modifies bf.bits
+//@   modifies bf.n
+//@   modifies bf.bits[0:len(bf.bits)]
+//@   ensures  len(bf.bits) == 0 && bf.n == 0
+//@   loop 0 invariant samehdr(bf.bits, old(bf.bits))
+//@ func NewBloomFilter
+//@   mode int
+//@   requires 0 <= n
+//@   ensures  result != nil && len(result.bits) >= 1 && result.n == n
+//@   ensures  4 <= n ==> len(result.bits) == n / 4
+//@   ensures  zeroed: forall w :: 0 <= w && w < len(result.bits) ==> result.bits[w] == 0
+//@ func OptimalBitsSize
+//@   mode int
+//@   requires 0 <= n
+//@   ensures  result >= 1 && (4 <= n ==> result == n / 4)
+//
+// ---- dictionary filter ----
+// byte-string equality is kept abstract: bytes.Equal is THE equality of stored values, only congruence is used
+//@ decl func sameBytes(a []byte, b []byte) bool
+//@ func bytes.Equal
+//@   assumed standard library; kept as an uninterpreted relation on the two contents
+//@   pure
+//@   ensures result == sameBytes(a[:], b[:])
+//@ func bytes.IndexByte
+//@   assumed standard library: index of the first occurrence of c, or -1
+//@   pure
+//@   ensures -1 <= result && result < len(b)
+//@   ensures hit:  result >= 0 ==> b[result] == c && (forall j :: 0 <= j && j < result ==> b[j] != c)
+//@   ensures miss: result < 0 ==> (forall j :: 0 <= j && j < len(b) ==> b[j] != c)
+//@ func bytes.Clone
+//@   assumed standard library: a fresh copy
+//@   ensures len(result) == len(b) && (len(b) > 0 ==> fresh(result))
+//@   ensures forall j :: 0 <= j && j < len(b) ==> result[j] == b[j]
+//
+//@ spec func isArr(df *DictionaryFilter) bool = df.valueType == pbv1.ValueTypeStrArr || df.valueType == pbv1.ValueTypeInt64Arr
+//
+// scalar tags: "absent" is answered only when no stored value equals the item
+//@ func DictionaryFilter.MightContain
+//@   mode int
+//@   requires df != nil
+//@   ensures  no-false-negative: !isArr(df) && (exists k :: 0 <= k && k < len(df.values) && sameBytes(df.values[k][:], item[:])) ==> result
+//@   ensures  exact: result ==> (exists k :: 0 <= k && k < len(df.values) && sameBytes(df.values[k][:], item[:]))
+//@   loop 0 invariant forall k :: 0 <= k && k < range_i ==> !sameBytes(df.values[k][:], item[:])
+//
+// element e occurs in a serialized int64 array: one of its 8-byte cells equals e
+//@ spec func hasElem64(ser []byte, e []byte) bool = exists m :: 0 <= m && 8*m + 8 <= len(ser) && sameBytes(e, ser[8*m:8*m+8])
+//
+// extractElements: "are all query values elements of this stored array". It must never answer false when they all are, and
+// it must leave the stored (cached, shared) dictionary value exactly as it was.
+//@ func DictionaryFilter.extractElements
+//@   mode int
+//@   requires df != nil
+//@   inline encoding.UnmarshalVarArray
+//@   modifies serializedArray[0:len(serializedArray)]
+//@   ensures  unchanged: forall j :: 0 <= j && j < len(serializedArray) ==> serializedArray[j] == old(serializedArray[j])
+//@   ensures  no-false-negative-int64: df.valueType == pbv1.ValueTypeInt64Arr && (forall t :: 0 <= t && t < len(values) ==> hasElem64(serializedArray, values[t][:])) ==> result
+//@   loop 1 invariant i >= 0 && i % 8 == 0 && i <= len(serializedArray)
+//@   loop 1 invariant !found ==> (forall m :: 0 <= m && 8*m < i ==> !sameBytes(v[:], serializedArray[8*m:8*m+8]))
+//@   loop 1 decreases len(serializedArray) - i
+//@   loop 2 invariant unchanged: forall j :: 0 <= j && j < len(serializedArray) ==> serializedArray[j] == old(serializedArray[j])
+//@   loop 2 invariant escaped <==> !(forall j :: 0 <= j && j < len(serializedArray) ==> serializedArray[j] != 92)
+//@   loop 3 invariant 0 <= idx
+//@   loop 3 invariant unchanged: forall j :: 0 <= j && j < len(serializedArray) ==> serializedArray[j] == old(serializedArray[j])
+//@   loop 3 invariant private: escaped ==> fresh(arr) || len(arr) == 0
+//@   loop 3 invariant shared: !escaped ==> samehdr(arr, serializedArray)
+//@   loop 3 decreases len(arr) - idx
+//
+// ContainsAll. Scalar tags: "absent" only when some item equals no stored value. Array tags: the stored values are left
+// exactly as they were by every lookup (the filter is cached per block and shared by later queries).
+//@ spec func valuesUnchanged(df *DictionaryFilter) bool =
+//@     samehdr(df.values, old(df.values)) &&
+//@     (forall k :: 0 <= k && k < len(df.values) ==> samehdr(df.values[k], old(df.values[k]))) &&
+//@     (forall k, j :: 0 <= k && k < len(df.values) && 0 <= j && j < len(df.values[k]) ==> df.values[k][j] == old(df.values[k][j]))
+//@ func DictionaryFilter.ContainsAll
+//@   mode int
+//@   requires df != nil
+//@   modifies allof(byte)
+//@   ensures  no-false-negative-scalar: !isArr(df) && (forall t :: 0 <= t && t < len(items) ==> (exists k :: 0 <= k && k < len(df.values) && sameBytes(df.values[k][:], items[t][:]))) ==> result
+//@   ensures  stored-values-intact: valuesUnchanged(df)
+//@   loop 0 invariant valuesUnchanged(df)
+//@   loop 2 invariant !found ==> (forall k :: 0 <= k && k < range_i ==> !sameBytes(df.values[k][:], item[:]))
+//@ func DictionaryFilter.Set
+//@   mode int
+//@   requires df != nil
+//@   modifies df.values
+//@   modifies df.valueType
+//@   ensures  samehdr(df.values, values) && df.valueType == valueType
+//@ func DictionaryFilter.Reset
+//@   mode int
+//@   requires df != nil
+//@   modifies df.values
+//@   modifies df.valueType
+//@   modifies df.values[0:len(df.values)]
+//@   ensures  len(df.values) == 0
+//@   loop 0 invariant samehdr(df.values, old(df.values))
